@@ -2267,7 +2267,7 @@ def argty_coq(world, x):
 
 
 def gen_messages_v(fns, meta, world):
-    L = ['(* GENERATED by tools/cxx2coq.py from %s/src (clang AST) - do not edit.' % REPO,
+    L = ['(* GENERATED by tools/cxx2coq.py from <repo>/src (clang AST) - do not edit.',
          '   One term of the field-level IR (Model/MsgIR.v) per SetN2k*/ParseN2k*/alias function; function ids are positions in source order. *)',
          'From Coq Require Import ZArith List Bool.', 'From N2kV Require Import Model.MsgIR.', 'Import ListNotations.', 'Local Open Scope Z_scope.', '']
     sl, pl, ul = [], [], []
